@@ -30,8 +30,12 @@ MANIFEST = {
             "(C07_layout_preserves_tokens_full) and that its line breaks are where grammar.pest admits NEWLINE "
             "(C07_layout_parses_full) are stated, not proved: decided on every run by the FORMAT-items stream (real "
             "format_expr output at the widths where the layout changes, under the lexical view toks/canon evaluated by "
-            "vm_compute and by a Python twin) and by the re-parse search; the code before fixes/C07-crlf-lines.diff is "
-            "refuted (C07_layout_crlf_refuted, finding F55)",
+            "vm_compute and by a Python twin) and by the re-parse search; finding F55 (CRLF dropped by the via/into/where layout) was "
+            "repaired in /repo 5eeeb29 (C07_relined_identity, C07_layout_crlf_repaired). "
+            "Character level, first step (C07_atoms_relex, over the PEG model of the regenerated grammar that C10 "
+            "compares pair-for-pair with pest's parser): the text of every atom the printer emits — string literal in "
+            "the quote style quote_string chooses (any UTF-8-shaped content, any continuation), identifier, true / false "
+            "/ null, any text of the number rule's language — re-lexes to exactly that atom's pair with the full span",
     "note": "trusted: Coq kernel + vm_compute; translate/prec_table.py; hand transcription of ast_to_source.rs and of "
             "pest's Pratt parser (both validated by correspondence on every run); the character level of the grammar "
             "(token lexing, NEWLINE admission in the multi-line layouts of formatter.rs) is decided by search on the "
@@ -433,6 +437,7 @@ def main(argv):
         cli = c.build_cli("release")
         c.regen_builtins(h)
         c10.regen_prec(h)
+        c.regen_all(h)            # Properties/C07.v (AtomLayer) also needs gen/Grammar.v, IdentRules.v, NumGrammar.v
     except c.BrokenTie as e:
         res.tie_broken(e.what, e.detail)
         return res.finish()
